@@ -40,3 +40,12 @@ Theorem C04_rots24_integer : Forall (fun M => Forall (fun e => e = 0 \/ e = 1 \/
 Proof. exact rots24_integer. Qed.
 Print Assumptions C04_bonds_invariant.
 Print Assumptions C04_rotation_equivariant.
+
+(* group centres (Group.set_center, model/Centre.v): the centre of the moved atoms is the moved centre, for every matrix M (orthogonal or not),
+   every translation and every atom list; and a centre exists exactly for non-empty atom lists - it is never a default position *)
+From V Require Import Centre.
+Theorem C04_group_centre_moves : forall M t (pts : list (VecGen.vec3 R)), set_center (map (move M t) pts) = option_map (move M t) (set_center pts).
+Proof. exact centre_move. Qed.
+Theorem C04_group_centre_from_atoms : forall pts : list (VecGen.vec3 R), set_center pts <> None <-> pts <> [].
+Proof. exact centre_defined. Qed.
+Print Assumptions C04_group_centre_moves.
